@@ -47,8 +47,8 @@ def oracle(spec: dict, res: dict, failing: bool):
 class C07(Property):
     pid = "C07"
     title = "Recorded provenance is complete and acyclic"
-    lean_targets = ["SFV.Props.C07"]
-    props_files = ["SFV/Props/C07.lean"]
+    lean_targets = ["SFV.Props.C07", "SFV.Props.C07Net"]
+    props_files = ["SFV/Props/C07.lean", "SFV/Props/C07Net.lean"]
     drivers = ["Drivers/Net.lean"]
     translators = []
     rule = ("the token and provenance tables of the SQLite database are dumped after every run of random well-formed DAG workflows "
